@@ -21,6 +21,7 @@ SRCS = {
     'lists': 'x = [a, [b, [c], d], e]\ny = (f, g)\n',
     'block': 'if a:\n    b = 1\n    c = 2\nelse:\n    d = 3\ne = [4, 5]\n',
     'calls': 'r = f(a, g(b, c), k=h(d))\ns = t.u\n',
+    'nonefirst': 'x = [pre, {**v0, k1: v1, k2: v2}, post]\ng = lambda *, a, b=d1, c=d2: a\n',
     'mixed': 'def f(p, q=1):\n    r = [p, q]  # c\n    return r\nz = f(1, 2)\n',
 }
 ACTIONS = ['none', 'replace_self', 'remove_self', 'replace_parent', 'remove_parent', 'remove_grandparent', 'remove_prev', 'remove_next', 'replace_next', 'insert_before']
@@ -202,7 +203,7 @@ for _k in SRCS:
             continue
         CELLS.append(Cell(f'P1.walk[{_k},{_w or "default"}]', _mk_walk(_k, _wi, False), 'P', FNW,
                           f'carrier {_k}; walk({_w}); ONE mutation event: yield ordinal k over 0..40, {len(ACTIONS)} actions, send in {{none, False, True}} (all symbolic)',
-                          tier='quick' if (_k in ('lists', 'block') and _wi in (0, 1, 3)) or (_k == 'mixed' and _wi in (0, 6)) else 'thorough', budget=900, per_path=60,
+                          tier='quick' if (_k in ('lists', 'block') and _wi in (0, 1, 3)) or (_k == 'mixed' and _wi in (0, 6)) or (_k == 'nonefirst' and _wi in (0, 2)) else 'thorough', budget=900, per_path=60,
                           out='cut during walk (documented unsupported); raw edits during walk (documented lossy); >= 3 events', reset=pc.reset_globals))
     for _wi in (0, 1):
         CELLS.append(Cell(f'P1.walk2[{_k},{WALKS[_wi] or "default"}]', _mk_walk(_k, _wi, True), 'P', FNW,
